@@ -101,6 +101,51 @@ def init_text(t):
     return "{" + ",".join(init_text(ft) for _, ft in t.fields) + "}"
 
 
+LEAFB = {"int": "int", "bint": "boundedInt", "bool": "bool"}
+
+
+def parts_t(t):
+    """array type -> (the type below its inline dimensions, number of those dimensions); mirrors TypeEnv.decl_parts"""
+    n = 0
+    while t.kind == "arr":
+        n += 1
+        if t.elem.kind == "arr" and t.elem.inline:
+            t = t.elem
+        else:
+            return t.elem, n
+    return t, n
+
+
+def arr_wrap(d, n):
+    for _ in range(n):
+        d = "(array %s)" % d
+    return d
+
+
+def decl_use(t, pfx):
+    """abstract syntax (for the Lean elaboration model) of `<pfx> <name_of(t)>`"""
+    if t.kind == "scalar":
+        return "(named %s sc_t (base scalar none #scalarset))" % pfx
+    if t.is_leaf():
+        return "(base %s %s)" % (LEAFB[t.kind], pfx)
+    return "(named %s %s %s)" % (pfx, t.name, decl_body(t))
+
+
+def decl_body(t):
+    """the typedef body TypeEnv.name_of emitted for the aggregate t"""
+    if t.kind == "arr":
+        base, n = parts_t(t)
+        return arr_wrap(decl_use(base, "none"), n)
+    fs = []
+    for fn, ft in t.fields:
+        if ft.kind == "arr" and ft.inline:
+            base, n = parts_t(ft)
+            fs.append("%s %s" % (fn, arr_wrap(decl_use(base, "none"), n)))
+        else:
+            fs.append("%s %s" % (fn, decl_use(ft, "none")))
+    return "(struct none %s)" % " ".join(fs)
+
+
 def has_scalar(t):
     if t.kind == "scalar":
         return True
@@ -178,6 +223,8 @@ SOURCES = {
     "global-inline": ("fun", "edge", "inst"),        # const <type text written out> x[..] = ..   (no typedef name)
     "typedef-const": ("fun", "edge", "inst"),        # typedef const T ct;  ct x = ..
     "elem-typedef-const": ("fun", "edge", "inst"),   # typedef const E ce;  ce x[n] = ..           (array of const)
+    "meta-typedef-const": ("fun", "edge"),           # typedef const T ct;  meta ct x = ..         (qualifier over a const typedef)
+    "instance-cref-param": ("inst",),                # RQ(const T &y) = PR(y..);  parameter of a partial instantiation
     "template-local": ("edge", "tfun"),
     "function-local": ("fun",),
     "block-local": ("fun",),
@@ -251,6 +298,13 @@ def build_case(r, source, form, scope, const, t, path, shape, xml):
     elif source == "elem-typedef-const":
         base, dims = env.decl_parts(t)
         decl, where = "typedef %s%s ce_t; ce_t x%s%s;" % (c, base, dims, ini), g
+    elif source == "meta-typedef-const":
+        decl, where = "typedef %s%s cx_t; meta cx_t x%s;" % (c, tn, ini), g
+    elif source == "instance-cref-param":
+        if form != "inst-ref":
+            return None
+        g.append("const %s ga = %s;" % (tn, init_text(t)) if const else "%s ga;" % tn)
+        decl = None
     elif source == "template-local":
         decl, where = "%s%s x%s;" % (c, tn, ini), tl
     elif source in ("function-local", "block-local"):
@@ -288,6 +342,33 @@ def build_case(r, source, form, scope, const, t, path, shape, xml):
         raise AssertionError(source)
     if decl:
         where.append(decl)
+    pfx = "const" if const else "none"
+    dsx, site = None, None
+    if source in ("global", "template-local", "function-local", "block-local", "function-param", "template-param"):
+        dsx = decl_use(t, pfx)
+    elif source in ("function-cref-param", "template-cref-param"):
+        dsx = "(ref %s)" % decl_use(t, pfx)
+    elif source == "global-inline":
+        if t.kind == "arr":
+            base, nd = parts_t(t)
+            dsx = arr_wrap(decl_use(base, pfx), nd)
+        elif t.kind == "struct":
+            dsx = "(struct %s %s)" % (pfx, " ".join("%s %s" % (fn, decl_use(ft, "none")) for fn, ft in t.fields))
+        else:
+            dsx = decl_use(t, pfx)
+    elif source == "typedef-const":
+        dsx = "(named none cx_t %s)" % decl_use(t, pfx)
+    elif source == "meta-typedef-const":
+        dsx = "(named systemMeta cx_t %s)" % decl_use(t, pfx)
+    elif source == "elem-typedef-const":
+        base, nd = parts_t(t)
+        dsx = arr_wrap("(named none ce_t %s)" % decl_use(base, pfx), nd)
+    elif source == "const-member":
+        base, nd = parts_t(t)
+        dsx = "(named none km_t (struct none k %s v (base int none)))" % arr_wrap(decl_use(base, pfx), nd)
+    elif binder:
+        dsx = decl_use(t, "none")
+        site = source.split("-")[1] if const else None
 
     # companions of the target's type: a value to assign and a second mutable lvalue for ?:
     if et.kind == "scalar":
@@ -363,8 +444,11 @@ def build_case(r, source, form, scope, const, t, path, shape, xml):
     if form == "inst-ref":
         if "[i0]" in target:
             return None
-        tdecl = "process PR(%s &p) { state s0; init s0; trans s0 -> s0 { assign m0 = 0; }; }" % etn
-        insts.append(("PR", ["%s &p" % etn], "", "", "", "m0 = 0", "RI", [target]))
+        if source == "instance-cref-param":
+            lines = ["RQ(%s%s &x) = PR(%s);" % (c, tn, target), "RI = RQ(ga);"]
+            insts.append(("PR", ["%s &p" % etn], "", "", "", "m0 = 0", (lines, "RI"), []))
+        else:
+            insts.append(("PR", ["%s &p" % etn], "", "", "", "m0 = 0", "RI", [target]))
     elif scope in ("fun", "tfun"):
         if form == "for-step":
             body_stmt = "for (m0 = 0; m0 < 1; %s++) { }" % E
@@ -407,7 +491,7 @@ def build_case(r, source, form, scope, const, t, path, shape, xml):
     k.text = render_xml(gtext, templates) if xml else render_xta(gtext, templates)
     k.mode = "XML" if xml else "XTA"
     k.meta = {"source": source, "form": form, "scope": scope, "shape": shape, "const": const, "target": target,
-              "leaf": et.kind}
+              "leaf": et.kind, "decl": dsx, "site": site}
     return k
 
 
@@ -422,7 +506,10 @@ def render_xta(gtext, templates):
             labels += "guard %s; " % guard
         labels += "assign %s; " % upd
         out.append("process %s(%s) { %s state s0; init s0; trans s0 -> s0 { %s}; }" % (name, ", ".join(params), decls, labels))
-        if inst:
+        if isinstance(inst, tuple):
+            out += inst[0]
+            procs.append(inst[1])
+        elif inst:
             out.append("%s = %s(%s);" % (inst, name, ", ".join(args)))
             procs.append(inst)
         else:
@@ -457,7 +544,10 @@ def render_xml(gtext, templates):
         if upd:
             out.append('<label kind="assignment">%s</label>' % xesc(upd))
         out.append("</transition></template>")
-        if inst:
+        if isinstance(inst, tuple):
+            sysdecl += inst[0]
+            procs.append(inst[1])
+        elif inst:
             sysdecl.append("%s = %s(%s);" % (inst, name, ", ".join(args)))
             procs.append(inst)
         else:
@@ -496,7 +586,7 @@ def gen_cases(ctx):
                                 cases.append(k)
     n_exh = len(cases)
     # (2) random deeper types and paths
-    want = 1500 if not ctx.thorough else 30000
+    want = 6000 if not ctx.thorough else 120000
     tries = 0
     nonbinder = [s for s in SOURCES if s not in BINDERS]
     while len(cases) < n_exh + want and tries < want * 20:
@@ -505,7 +595,7 @@ def gen_cases(ctx):
         scope = r.choice(SOURCES[source])
         form = r.choice(FORMS)
         leaves = ("int", "int", "bint", "bool") if r.random() < 0.3 else ("int", "int", "bint")
-        t = rand_type(r, r.randint(1, 4 if not ctx.thorough else 6), leaves)
+        t = rand_type(r, r.randint(1, 5 if not ctx.thorough else 7), leaves)
         path, shape, _ = rand_path(r, t, const_index_only=(form == "inst-ref"))
         xml = r.random() < 0.5
         # twins share type and path: rebuild the type object for each (names are assigned per environment)
@@ -627,6 +717,10 @@ def drv_map(queries):
     return dict(zip(qs, lines))
 
 
+def decl_query(m):
+    return ("declbinder %s %s" % (m["site"], m["decl"])) if m.get("site") else "decl " + m["decl"]
+
+
 def pure_chain(ex):
     return "(n1 " not in ex and "(n2 " not in ex and "(iif " not in ex and "(op " not in ex
 
@@ -656,14 +750,41 @@ def run(ctx):
         cov.update({"obligations": len(core.theorems_of(MODULE)), "discharged": 0, "checker_cmd": "n/a (translation failed)",
                     "trusted_base": core.TRUSTED_BASE})
     # 3/4 run the implementation --------------------------------------------------------------------------------------
-    b = core.build_repo("asan")
+    # all models on the -O2 build (a model costs ~0.2 ms there), every 25th (thorough: every 40th) also on the
+    # ASan+UBSan build (~100x slower per model); both builds must give the same verdicts
+    b = core.build_repo("plain")
     exe = core.build_harness(b, "c12", ["c12.cpp"])
     cases, n_exh = gen_cases(ctx)
     cases += sibling_cases()
     ctx.log("generated %d models (%d in the exhaustive product)" % (len(cases), n_exh))
     res, rc, err = run_harness(exe, cases)
-    ctx.log("implementation done")
+    ctx.log("implementation (plain build) done")
+    ba = core.build_repo("asan")
+    exe_a = core.build_harness(ba, "c12", ["c12.cpp"])
+    stride = 25 if not ctx.thorough else 40
+    off = ctx.rng.randrange(stride)
+    sub_idx = list(range(off, len(cases), stride))
+    res_a, rc_a, err_a = run_harness(exe_a, [cases[i] for i in sub_idx])
+    ctx.log("implementation (sanitizer build, %d models) done" % len(sub_idx))
+    cov["sanitizer_build_models"] = len(sub_idx)
+    for j, i in enumerate(sub_idx):
+        xa, xp = res_a[j], res[i]
+        if xa is None:
+            ctx.finding("impl:sanitizer", "the sanitizer build of the harness died (rc=%s) on a generated model" % rc_a,
+                        {"mode": cases[i].mode, "model": cases[i].text, "meta": cases[i].meta, "stderr": err_a[-3000:]})
+            break
+        if xp is not None and (xa["V"], xa["E"]) != (xp["V"], xp["E"]):
+            ctx.finding("impl:build-dependent-verdict", "the -O2 and the sanitizer build disagree on a model",
+                        {"mode": cases[i].mode, "model": cases[i].text, "meta": cases[i].meta, "plain": [xp["V"], xp["E"]],
+                         "asan": [xa["V"], xa["E"]]})
+            break
     oracle_fail = 0
+    MAX_REPORTED = 24   # distinct shapes reported per run (all are counted in the evidence)
+
+    def report(key, what, replay):
+        if len(ctx.violations) < MAX_REPORTED or key in [k0["key"] for k0 in ctx.known_db]:
+            ctx.finding(key, what, replay)
+
     dist = {"source": {}, "form": {}, "scope": {}, "shape": {}, "verdict": {}, "mode": {}, "diag": {}}
     crashed = [i for i, x in enumerate(res) if x is None]
     if crashed:
@@ -692,15 +813,15 @@ def run(ctx):
                             % (m["target"], "struct { const int k[2]; int v; } x", ",".join(x["E"])), replay)
             elif not m["const"] and x["V"] != "accepted":
                 oracle_fail += 1
-                ctx.finding("rejects-mutable:" + shape_key, "write to a mutable object rejected: %s" % x["E"], replay)
+                report("rejects-mutable:" + shape_key, "write to a mutable object rejected: %s" % x["E"], replay)
             continue
         if m["const"] and x["V"] == "accepted":
             oracle_fail += 1
-            ctx.finding("accepts:" + shape_key, "a write to a const object is accepted: `%s` (%s, %s)" % (
+            report("accepts:" + shape_key, "a write to a const object is accepted: `%s` (%s, %s)" % (
                 m["target"], m["source"], m["form"]), replay)
         if not m["const"] and x["V"] != "accepted":
             oracle_fail += 1
-            ctx.finding("rejects-mutable:" + shape_key, "the mutable twin is rejected: `%s` (%s, %s): %s" % (
+            report("rejects-mutable:" + shape_key, "the mutable twin is rejected: `%s` (%s, %s): %s" % (
                 m["target"], m["source"], m["form"], x["E"]), replay)
         if len(samples) < 4 and i % 997 == 0:
             samples.append({"meta": m, "model": k.text[:600], "verdict": x["V"], "diagnostics": x["E"]})
@@ -751,9 +872,13 @@ def run(ctx):
             ms = RX_S.match(line)
             if ms:
                 queries.append("ty " + ms.group(9))
+    for k in cases:
+        if k.meta.get("decl"):
+            queries.append(decl_query(k.meta))
     ans = drv_map(queries)
     dis = []
     n_corr = 0
+    n_decl = 0
     nontrivial = set()
 
     def cmp(what, q, real, model):
@@ -831,6 +956,25 @@ def run(ctx):
             if ms.group(7) != "-":
                 cmp("get_sub", tyq, ms.group(7), sub)
             cmp("strip", tyq, ms.group(8), strip)
+        # the declared type of x: the builder (real) against the elaboration model (Lean), and source-level constness
+        if k.meta.get("decl"):
+            a = ans[decl_query(k.meta)]
+            mty = a.split(" ty=", 1)[1] if " ty=" in a else a
+            real_tys = set()
+            for line in x["S"]:
+                ms = RX_S.match(line)
+                if ms and ms.group(2) == "x":
+                    real_tys.add(re.sub(r"#scalarset\d+", "#scalarset", ms.group(9)))
+            if real_tys:
+                cmp("declared type of x (builder callbacks)", k.meta["decl"], sorted(real_tys), [mty])
+                n_decl += 1
+            if not k.meta.get("site"):
+                d = dict(RX_DRV.findall(a))
+                if not (k.meta["source"].startswith("binder-")):
+                    member = k.meta["source"] == "const-member"   # the variable is not const, one member is
+                    cmp("source-level const / const-free", k.meta["decl"],
+                        {"const": "1" if (k.meta["const"] and not member) else "0", "free": "0" if k.meta["const"] else "1"},
+                        {"const": d.get("const"), "free": d.get("free")})
         # the verdict the model predicts from the lvalue rules alone (single-write models, well-typed otherwise)
         m = k.meta
         if x["V"] == "accepted" and any_refused:
@@ -843,6 +987,7 @@ def run(ctx):
             if bool(target_rooted) != bool(m["const"]):
                 spec_dis.append({"meta": m, "model": k.text, "lean_constRooted": target_rooted})
     cov["correspondence_cases"] = n_corr
+    cov["declared_types_compared"] = n_decl
     cov["correspondence_disagreements"] = len(dis) + len(model_verdict_dis) + len(spec_dis)
     cov["distinct_nontrivial"] = len(nontrivial)
     cov["distinct_driver_queries"] = len(ans)
@@ -872,8 +1017,20 @@ def replay(ctx, path):
     print(json.dumps({k: v for k, v in r.items() if k != "replay"}, indent=1))
     rep = r.get("replay", {})
     if "model" not in rep:
+        # a theorem / the translation / the correspondence did not check: re-run translation and proofs on the current tree
         print(json.dumps(rep, indent=1)[:4000])
-        return 1
+        try:
+            text, _ = constness.translate(core.REPO)
+            core.write_if_changed(GEN, text)
+        except constness.TranslateError as ex:
+            print("translation still fails:", ex)
+            return 1
+        core.regen_kinds()
+        ok, log = ctx.prove(MODULE, ["drv_c12"])
+        print("proofs check now" if ok else "proofs still fail:\n" + log[-2000:])
+        if ok and "correspondence" in str(rep.get("theorem_or_correspondence", "")):
+            print("(run ./check C12 for the correspondence itself)")
+        return 0 if ok else 1
     b = core.build_repo("asan")
     exe = core.build_harness(b, "c12", ["c12.cpp"])
     k = Case()
